@@ -18,7 +18,7 @@
 
    "leaks nothing" is not a statement about the model; it is checked on the
    real code only (harness: blocks outstanding after teardown, ASan). *)
-From DV Require Import Spec.OomSpec Proofs.OomGeneric Proofs.OomLists Proofs.OomHandlers Proofs.OomMain Proofs.OomRefute Proofs.OomTight.
+From DV Require Import Spec.OomSpec Proofs.OomGeneric Proofs.OomLists Proofs.OomHandlers Proofs.OomMain Proofs.OomRefute Proofs.OomTight Proofs.OomClean.
 Local Open Scope N_scope.
 
 (* ---- the literal statement and its refutation ------------------------------------------------ *)
@@ -65,8 +65,14 @@ Print Assumptions C14_atomic_exact.
 Theorem C14_retry : forall mn mr mp h b e c F,
   run (init_bus mn mr mp) h = Some b -> requester e = Some c -> uncovered b e = false ->
   retry_ok b c e (step_f F b e).
-Proof. intros; eapply retry_covered; eauto using reachable_inv. Qed.
+Proof. intros; eapply retry_covered_strong; eauto using reachable_inv. Qed.
 Print Assumptions C14_retry.
+
+(* without a failing allocation nobody is ever told NoMemory (so "reported NoMemory" really means a failed attempt) *)
+Theorem C14_unfailed_never_reports_oom : forall b e b' o,
+  step b e = OOk b' o -> Forall (fun x => snd x <> MError ENoMemory) o.
+Proof. exact unfailed_never_oom. Qed.
+Print Assumptions C14_unfailed_never_reports_oom.
 
 (* on these classes the daemon never runs into an assertion *)
 Theorem C14_never_stops : forall b e c F,
